@@ -17,20 +17,36 @@ def _ir(step):
 
 
 def export_step(step):
+    """Tools and sandbox are read from the step's *core* view (`CoreStep.getTools/getSandbox`: what the package was
+    computed with, which is what `CoreStep.getDigest` hashes).  The package-level getters `Step.getTools/getSandbox`
+    reconstruct them from the path by which the package was reached; below a package that `Recipe.prepare` merged
+    into an earlier one with the same result id (known findings F-C04-2..5) the two views can differ.  The difference
+    is recorded in `view_mismatch` (counted by the checks), everything else comes from the public getters."""
     ir = _ir(step).toData()
     weak = set(ir["toolKeysWeak"])
-    sb = step.getSandbox()
+    core = step._coreStep
+    csb = core.getSandbox()
+    sandbox = csb.coreStep.variantId.hex() if csb else None
+    tools = [{"name": n, "prov": t.coreStep.variantId.hex(), "path": t.path, "libs": list(t.libs), "weak": n in weak}
+             for n, t in core.getTools().items()]
+    psb = step.getSandbox()
+    pub_tools = sorted((n, t.getStep().getVariantId().hex(), t.getPath(), tuple(t.getLibs())) for n, t in step.getTools().items())
+    mismatch = []
+    if (psb.getStep().getVariantId().hex() if psb else None) != sandbox:
+        mismatch.append("sandbox")
+    if pub_tools != sorted((t["name"], t["prov"], t["path"], tuple(t["libs"])) for t in tools):
+        mismatch.append("tools")
     return {
         "label": step.getLabel(),
         "valid": step.isValid(),
         "vid": step.getVariantId().hex(),
         "script": step.getDigestScript(),
-        "tools": [{"name": n, "prov": t.getStep().getVariantId().hex(), "path": t.getPath(), "libs": list(t.getLibs()),
-                   "weak": n in weak} for n, t in step.getTools().items()],
+        "tools": tools,
         "env": [[k, v] for k, v in ir["digestEnv"].items()],
         "args": [{"vid": a.getVariantId().hex(), "valid": bool(a.isValid())} for a in step.getArguments()],
         "fingerprinted": bool(step._isFingerprinted()),
-        "sandbox": sb.getStep().getVariantId().hex() if sb else None,
+        "sandbox": sandbox,
+        "view_mismatch": mismatch,
     }
 
 
@@ -102,14 +118,14 @@ def sem_of_step(step, strong_vars, tool_id=lambda vid: vid):
     fingerprinted inside a sandbox, for checkouts the SCM descriptions and assertions.
     `strong_vars` is the set of variables declared strong for this step (from the recipe text, not from Bob)."""
     env = step.getEnv()
-    sb = step.getSandbox()
+    sb = step._coreStep.getSandbox()     # core view, see export_step
     sem = {
         "script": normalise_script(step.getScript()) if step.isValid() else None,
         "env": tuple(sorted((k, env[k]) for k in strong_vars if k in env)),
-        "tools": tuple((tool_id(t.getStep().getVariantId()), t.getPath(), tuple(t.getLibs()))
-                       for _, t in sorted(step.getTools().items())),
+        "tools": tuple((tool_id(t.coreStep.variantId), t.path, tuple(t.libs))
+                       for _, t in sorted(step._coreStep.getTools().items())),
         "args": tuple(a.getVariantId() for a in step.getArguments() if a.isValid()),
-        "sandbox": sb.getStep().getVariantId() if (sb and step._isFingerprinted()) else None,
+        "sandbox": sb.coreStep.variantId if (sb and step._isFingerprinted()) else None,
     }
     if step.isCheckoutStep() and step.isValid():
         sem["scm"] = tuple(scm_sem(s.getProperties(False)) for s in step.getScmList())
@@ -166,9 +182,10 @@ def run_coro(coro):
 
 def lean_bid_request(step, d, fingerprint, platform, tag=b"bid"):
     """the `bid` request that mirrors `build_id`"""
-    tools = []
-    for t, (n, tool) in zip(d["tools"], step.getTools().items()):
-        tools.append(dict(t, prov=fake_digest(tag, tool.getStep()).hex()))
+    # StepIR works on the package-level view of the tools (Step.getTools)
+    weak = set(step.toolDepWeak)
+    tools = [{"name": n, "prov": fake_digest(tag, tool.getStep()).hex(), "path": tool.getPath(), "libs": list(tool.getLibs()),
+              "weak": n in weak} for n, tool in step.getTools().items()]
     args = [fake_digest(tag, a).hex() for a in step.getArguments() if a.isValid()]
     if fingerprint is None:
         # no fingerprint given: getDigestCoro falls back to the Variant-Id rule (sandbox step digest)
